@@ -51,20 +51,20 @@ type Session struct {
 }
 
 type SessResult struct {
-	Written  []string   `json:"written"` // every line the client wrote (barrier PONGs removed), without CRLF
-	Dumps    [][]string `json:"dumps"`
-	Getters  [][]string `json:"getters"`
-	Panics   []string   `json:"panics"`
-	Wedged   bool       `json:"wedged"`
-	Crashed  bool       `json:"crashed"` // the worker process died while running this session
-	CrashOut string     `json:"crash_out,omitempty"`
-	Timings  [][4]float64 `json:"timings"` // per timed call: call start, call return, arrival (ms since session start), line length
-	TimedLines []string `json:"timed_lines"`
-	Snap     []string   `json:"snap"`  // snapshot-isolation discrepancies (C13)
-	Marks    [][2]int   `json:"marks"` // (step index, lines written so far) at every successful barrier
-	Connect  string     `json:"connect"` // how Connect returned: "" (still running at the end), "nil", "errevent:<text>", "err:<text>"
-	Debug    string     `json:"debug,omitempty"`
-	Out      string     `json:"out,omitempty"`
+	Written    []string     `json:"written"` // every line the client wrote (barrier PONGs removed), without CRLF
+	Dumps      [][]string   `json:"dumps"`
+	Getters    [][]string   `json:"getters"`
+	Panics     []string     `json:"panics"`
+	Wedged     bool         `json:"wedged"`
+	Crashed    bool         `json:"crashed"` // the worker process died while running this session
+	CrashOut   string       `json:"crash_out,omitempty"`
+	Timings    [][4]float64 `json:"timings"` // per timed call: call start, call return, arrival (ms since session start), line length
+	TimedLines []string     `json:"timed_lines"`
+	Snap       []string     `json:"snap"`    // snapshot-isolation discrepancies (C13)
+	Marks      [][2]int     `json:"marks"`   // (step index, lines written so far) at every successful barrier
+	Connect    string       `json:"connect"` // how Connect returned: "" (still running at the end), "nil", "errevent:<text>", "err:<text>"
+	Debug      string       `json:"debug,omitempty"`
+	Out        string       `json:"out,omitempty"`
 }
 
 type customMech struct {
